@@ -741,7 +741,11 @@ class Interp:
             if p[1] and p[1][0] == "*":
                 base = env.get(p[0], TOP)
                 if isinstance(base, Ref):
-                    return Ref(base.local, base.proj + list(p[1][1:]), frame=getattr(base, "frame", None))
+                    # (an index by a local is evaluated when the reference is taken: `&ids[i]` inside a closure whose `ids` is a
+                    # captured reference into another frame must not carry this frame's local number along)
+                    rest_ = [(["ci", env.get(x[1]), False] if isinstance(x, list) and x[0] == "i" and isinstance(env.get(x[1]), int) and not isinstance(env.get(x[1]), bool) else x)
+                             for x in p[1][1:]]
+                    return Ref(base.local, base.proj + rest_, frame=getattr(base, "frame", None))
                 if isinstance(base, Sym):
                     if len(p[1]) == 1:
                         return base
@@ -1362,6 +1366,8 @@ def std_oracle(interp, env, f, args, t, bb, path):
     if key in ("core::convert::Into::into", "core::convert::From::from") and isinstance(a0, (int, float)) and not isinstance(a0, bool):
         dst = (f.get("gargs") or [""])[-1] if key.endswith("into") else (f.get("gargs") or [""])[0]
         return float(a0) if dst in ("f64", "f32") else a0
+    if key in ("core::ops::bit::Not::not", "core::ops::Not::not") and isinstance(deref(a0), bool):
+        return not deref(a0)        # (`!b` itself is a MIR unary operation; this is `Not::not` passed as a function value)
     if key == "core::clone::Clone::clone" or key == "dyn_clone::clone_box":
         return deref(a0)        # (dyn_clone::clone_box is what `Box<dyn Trait>: Clone` of the crate's trait objects expands to)
     if key == "core::clone::Clone::clone_from" and len(args) == 2 and isinstance(a0, (Ref, HRef)):
